@@ -1,7 +1,7 @@
 """C05 — MATLAB call-site ids and the MEX dispatch table always agree (explicit-state model checking on the real code).
 
 State machine = the real MatlabWrapper consuming declarations; a transition appends one declaration shape from a
-19-letter alphabet to the interface; the state reached is rebuilt by running the real generator on the whole
+21-letter alphabet to the interface; the state reached is rebuilt by running the real generator on the whole
 sequence (live objects are never copied).  States are canonicalised as (next id, multiset of allocated roles).
 The invariant is evaluated in every state, i.e. on every generated toolbox:
     ids at .m call sites == case labels == {0..n-1}; every id has exactly one call site and one case; every case
@@ -86,6 +86,15 @@ def shape(k, i):
         B, C = 'Nb' + s, 'Nd' + s
         return [D.cls(B, [D.ctor(B), D.static(single(I), 'unit', [])]),
                 D.cls(C, [D.ctor(C), D.ctor(C, [arg(I, 'r')]), D.method(single(I), 'area', [], 1)], b=T(B))]
+    if k == 'funcs3':
+        # two overloads that MATLAB cannot tell apart (int / size_t are both 'numeric'), and more after them
+        return [D.func(single(I), 'fg' + s, [arg(I, 'a')]), D.func(single(I), 'fg' + s, [arg(T('size_t'), 'n')]),
+                D.func(single(I), 'fg' + s, [arg(T('double'), 'x'), arg(I, 'y')]), D.func(single(I), 'fg' + s, [arg(T('string'), 't'), arg(I, 'y'), arg(I, 'z', '1')]),
+                D.cls('Mg' + s, [D.ctor('Mg' + s), D.method(single(I), 'mg', [arg(I, 'a')]), D.method(single(I), 'mg', [arg(T('size_t'), 'n')]),
+                                 D.method(single(I), 'mg', [arg(T('double'), 'x'), arg(I, 'y')])])]
+    if k == 'underscore':
+        C = 'Cal3_S' + s
+        return [D.ns('un' + s, [D.cls(C, [D.ctor(C), D.prop(I, 'fx'), D.prop(T('double'), 'max_set_get_size'), D.method(single(I), 'k_get', [], 1)], v=1)])]
     if k == 'rolenames':
         C = 'Rn' + s
         return [D.cls(C, [D.ctor(C), D.method(single(T('string')), 'string_serialize', [], 1),
@@ -94,12 +103,12 @@ def shape(k, i):
     if k == 'ns':
         C = 'Nc' + s
         return [D.ns('nn' + s, [D.cls(C, [D.ctor(C), D.method(single(I), 'mn', [])], v=1), D.func(single(I), 'fn' + s, [arg(I, 'a', '1')]),
-                                D.ns('deep', [D.cls('Nd' + s, [D.ctor('Nd' + s)])])])]
+                                D.ns('deep', [D.cls('Nd' + s, [D.ctor('Nd' + s), D.method(single(I), 'md', [])], v=1)])])]
     raise ValueError(k)
 
 
 ALPHABET = ['plain', 'ctors', 'noctor', 'virtual', 'derived', 'overloads', 'statics', 'props', 'tclass', 'serial',
-            'ignored', 'func', 'funcs', 'tfunc', 'enum', 'ns', 'funcs-split', 'plain-derived', 'rolenames']
+            'ignored', 'func', 'funcs', 'tfunc', 'enum', 'ns', 'funcs-split', 'plain-derived', 'rolenames', 'funcs3', 'underscore']
 CORE = ['plain', 'derived', 'overloads', 'props', 'funcs', 'ns']
 ALPHA4 = ['plain', 'ctors', 'virtual', 'derived', 'overloads', 'statics', 'props', 'tclass', 'serial', 'funcs', 'ns', 'plain-derived']
 
@@ -224,18 +233,22 @@ def routine_role(name, body):
     if m and 'in_archive >> *output' in b:
         return ('deserialize', m.group(1), None, None)
     ca = re.search(r'checkArguments\("([^"]*)",nargout,nargin(-1)?,(\d+)\)', b)
-    m = re.match(r'^(\w+?)_get_(\w+)$', base)
-    if m and ca:
-        ok = ('obj->%s' % m.group(2)) in b and ('ptr_%s"' % m.group(1)) in b and ca.group(1) == m.group(2)
-        return ('getter', m.group(1), m.group(2), None) if ok else ('getter-body-mismatch', m.group(1), m.group(2), None)
-    m = re.match(r'^(\w+?)_set_(\w+)$', base)
-    if m and ca:
-        ok = ('obj->%s = ' % m.group(2)) in b and ('ptr_%s"' % m.group(1)) in b
-        return ('setter', m.group(1), m.group(2), None) if ok else ('setter-body-mismatch', m.group(1), m.group(2), None)
+    mo = re.search(r'auto obj = unwrap_shared_ptr<[^>]*(?:<[^>]*>)?[^>]*>\(in\[0\], "ptr_(\w+)"\)', b)
+    if mo and ca and base.startswith(mo.group(1) + '_'):
+        # property accessors: the class tag is taken from the body (class and property names may contain '_')
+        tag, rest = mo.group(1), base[len(mo.group(1)) + 1:]
+        if rest.startswith('get_') and ca.group(1) == rest[4:] and re.search(r'obj->%s\b(?!\()' % re.escape(rest[4:]), b):
+            return ('getter', tag, rest[4:], None)
+        if rest.startswith('set_') and ('obj->%s = ' % rest[4:]) in b:
+            return ('setter', tag, rest[4:], None)
+    elif ca:
+        # no object is unwrapped: an accessor whose body is missing (unless it is a static method named get_x / set_x)
+        m = re.match(r'^(\w+?)_(get|set)_(\w+)$', base)
+        if m and not re.search(r'::%s_%s(<[^(]*>)?\(' % (m.group(2), re.escape(m.group(3))), b) and '.' not in ca.group(1):
+            return ('%ster-body-mismatch' % m.group(2), m.group(1), m.group(3), None)
     if ca is None:
         return ('unrecognised', base, None, None)
     cname, minus1, n = ca.group(1), ca.group(2), int(ca.group(3))
-    mo = re.search(r'auto obj = unwrap_shared_ptr<[^>]*(?:<[^>]*>)?[^>]*>\(in\[0\], "ptr_(\w+)"\)', b)
     if minus1 and mo:
         tag = mo.group(1)
         member = base[len(tag) + 1:] if base.startswith(tag + '_') else base
@@ -379,7 +392,7 @@ def run(ctx):
         'ids_role_checked': sum(r.get('nroles', 0) for _, r in res),
         'inconclusive_m_files': sum(r.get('inconclusive', 0) for _, r in res),
         'alphabet': ALPHABET, 'core_alphabet': CORE,
-        'rule': 'every declaration sequence of length <= %d over the 19-letter alphabet%s (plus both serialization settings '
+        'rule': 'every declaration sequence of length <= %d over the 21-letter alphabet%s (plus both serialization settings '
                 'where a serializable class occurs); each transition runs the real MatlabWrapper on the extended interface; '
                 'states = distinct canonical (next id, role multiset); the invariant is checked on every toolbox'
                 % ((3, ', length 4 over a 12-letter sub-alphabet and length 5..6 over the 6-letter core') if ctx.thorough else (3, ' and length 4 over the 6-letter core')),
